@@ -208,3 +208,82 @@ def contains(node: ast.AST, pred: Callable[[ast.AST], bool]) -> bool:
 
 def awaits_in(node: ast.AST) -> list[ast.Await]:
     return [n for n in walk_local(node) if isinstance(n, ast.Await)]
+
+
+def local_names(fn: ast.AST) -> list[str]:
+    """names bound by assignment-like statements in the function's own scope (not parameters, imports, nested defs,
+    comprehension targets, global/nonlocal), in order of first binding."""
+    a = fn.args  # type: ignore[attr-defined]
+    params = {x.arg for x in a.posonlyargs + a.args + a.kwonlyargs} | ({a.vararg.arg} if a.vararg else set()) | ({a.kwarg.arg} if a.kwarg else set())
+    excluded = set(params)
+    order: list[str] = []
+    comp_targets: set[int] = set()
+    for n in walk_local(fn):
+        if isinstance(n, ast.comprehension):
+            comp_targets.update(id(t) for t in ast.walk(n.target))
+    for n in walk_local(fn):
+        if isinstance(n, (ast.Global, ast.Nonlocal)):
+            excluded.update(n.names)
+        elif isinstance(n, (ast.Import, ast.ImportFrom)):
+            excluded.update((al.asname or al.name).split(".")[0] for al in n.names)
+        elif isinstance(n, ast.Name) and isinstance(n.ctx, ast.Store) and id(n) not in comp_targets:
+            if n.id not in order:
+                order.append(n.id)
+        elif isinstance(n, ast.ExceptHandler) and n.name and n.name not in order:
+            order.append(n.name)
+    return [n for n in order if n not in excluded]
+
+
+def canon_locals(fn: ast.AST, prefix: str = "v") -> tuple[ast.AST, dict[str, str]]:
+    """a deep copy of the function with its own locals renamed v0, v1, ... in order of first binding (so that text
+    comparisons do not depend on how locals are called), and the mapping original -> canonical."""
+    import copy
+    names = sorted(local_names(fn), key=lambda s: _first_store(fn, s))
+    m = {n: f"{prefix}{i}" for i, n in enumerate(names)}
+    out = copy.deepcopy(fn)
+    for n in ast.walk(out):
+        if isinstance(n, ast.Name) and n.id in m:
+            n.id = m[n.id]
+        elif isinstance(n, ast.ExceptHandler) and n.name in m:
+            n.name = m[n.name]
+    return out, m
+
+
+def _first_store(fn: ast.AST, name: str) -> tuple[int, int]:
+    best = (10 ** 9, 0)
+    for n in walk_local(fn):
+        if (isinstance(n, ast.Name) and isinstance(n.ctx, ast.Store) and n.id == name) or (isinstance(n, ast.ExceptHandler) and n.name == name):
+            best = min(best, (n.lineno, n.col_offset))
+    return best
+
+
+def inline_locals(fn: ast.AST, e: ast.AST, keep_calls: tuple = (), depth: int = 6) -> ast.AST:
+    """e with every local that has exactly one binding (a plain assignment) replaced by its right-hand side —
+    comparison of expressions up to naming and statement splitting."""
+    import copy
+    stores: dict[str, list] = {}
+    bare = {id(n.target) for n in walk_local(fn) if isinstance(n, ast.AnnAssign) and n.value is None}  # `x: T` binds nothing
+    for n in walk_local(fn):
+        if isinstance(n, ast.Name) and isinstance(n.ctx, ast.Store) and id(n) not in bare:
+            stores.setdefault(n.id, []).append(n)
+    defs: dict[str, ast.AST] = {}
+    for n in walk_local(fn):
+        if isinstance(n, (ast.Assign, ast.AnnAssign)) and n.value is not None:
+            ts = n.targets if isinstance(n, ast.Assign) else [n.target]
+            if len(ts) == 1 and isinstance(ts[0], ast.Name) and len(stores.get(ts[0].id, [])) == 1:
+                if isinstance(n.value, ast.Call) and call_name(n.value) in keep_calls:
+                    continue
+                defs[ts[0].id] = n.value
+
+    class T(ast.NodeTransformer):
+        def visit_Name(self, node: ast.Name):
+            if isinstance(node.ctx, ast.Load) and node.id in defs:
+                return copy.deepcopy(defs[node.id])
+            return node
+    out = copy.deepcopy(e)
+    for _ in range(depth):
+        before = ast.dump(out)
+        out = T().visit(out) if not (isinstance(out, ast.Name) and out.id in defs) else copy.deepcopy(defs[out.id])
+        if ast.dump(out) == before:
+            break
+    return ast.fix_missing_locations(out)
